@@ -65,6 +65,13 @@ func (c *CheckCtx) RunScenario(sc *Scenario, simIndex int) (*Outcome, error) {
 	}
 	c.mu.Lock()
 	defer c.mu.Unlock()
+	if f := os.Getenv("VERIF_DIGEST_FILE"); f != "" {
+		// determinism self-test: one line per executed scenario
+		if fh, err := os.OpenFile(f, os.O_APPEND|os.O_CREATE|os.O_WRONLY, 0o644); err == nil {
+			fmt.Fprintf(fh, "%s %d %s %s\n", c.Prop, simIndex, scenarioName(sc), out.Digest)
+			fh.Close()
+		}
+	}
 	for _, v := range out.Violations {
 		if v.Property != c.Prop {
 			if c.other == nil {
@@ -92,6 +99,19 @@ func (c *CheckCtx) RunScenario(sc *Scenario, simIndex int) (*Outcome, error) {
 		c.order = append(c.order, k)
 	}
 	return out, nil
+}
+
+func scenarioName(sc *Scenario) string {
+	n := sc.Kind
+	for i, v := range sc.Variants {
+		if i < 3 {
+			n += "/" + strings.ReplaceAll(v.Name, " ", "_")
+		}
+	}
+	if sc.Infl != nil && sc.Infl.Race {
+		n += "/race"
+	}
+	return n
 }
 
 // SimFunc runs simulation i.
